@@ -187,6 +187,7 @@ def execute(case, ctx):
         else:
             obj = key
         _operate(pgpy, ctx, m, cfg, key, obj, form, passphrase, step, shapes)
+        ctx.event(step['id'], op, form, ctx.oracle_evals, sorted(ctx.probes.items()))
     if shapes:
         ctx.mark_nontrivial(';'.join(sorted(shapes)))
 
